@@ -33,6 +33,10 @@ CHECKS = {
          "Generated-input search over 60k (2M) scene x configuration x call-split cases and 1.5k (60k) rotated solids. Front/back is decided in f64 from view-space geometry, never from the code under test.",
          "Trusted: the configuration interpreter in c07.rs; recorded fragment streams; scenes with numerically ambiguous winding excluded when culling is on (counted).",
          "DESIGN.md §4 C07"),
+ "C08": ("proptest probes vs an f64 pinhole model from the documentation: volume membership near every face, near/far depth bounds, depth monotonicity, viewport matrix, camera rendering of sub-pixel and frustum-covering triangles under all viewport rectangle classes, first-person rigidity/look-at/translate",
+         "Generated-input search over 290k (18M) matrix probes, 16k (400k) camera renders and 60k (3M) first-person cases; conditioning-aware tolerances with the measured maxima recorded.",
+         "Trusted: f64 pinhole model in c08.rs; probes within 1e-4 relative of a face not asserted; the first-person right axis is read as view x (no roll).",
+         "DESIGN.md §4 C08"),
  "C09": ("proptest products of transform constructors vs f64 matrix arithmetic: compose/then, apply/apply_pt, inverse (>= 30 % needing row exchanges), determinant, rotations, 3x3 API",
          "Generated-input search over 260k (20M) products with condition number <= 1e3 and |det| in [1e-3,1e3]; all identities compared with an f64 reference under componentwise error bounds with >= 9x measured margin.",
          "Trusted: f64 reference (Leibniz determinant, Jacobi condition number); D-f domain; apply uses the documented homogeneous-1 form.",
@@ -45,10 +49,22 @@ CHECKS = {
          "Generated-input search over 13M (1.5G) sampler cases including NaN, infinities, +-2^31 neighbourhoods, negative integers and subnormals; exact oracle (no tolerance); no panic for repeat/clamp on any f32 pair; poison texels detect out-of-region reads.",
          "Trusted: exact oracle in c12.rs; SamplerOnce only called in range (documented unchecked); std float backend (others in C20).",
          "DESIGN.md §4 C12"),
+ "C15": ("exhaustive parameter sweeps of every solid generator (sectors/segments from the minimum to 24 (96), radii, capped/uncapped) + proptest boxes and raw lathes, f64 mesh validity predicates (indices, unit normals, winding, watertightness after merging, Euler characteristic, on-surface)",
+         "Generated-input search: 88k (1.4M) meshes, every one checked by the full predicate set in f64, independent of the generators' index arithmetic.",
+         "Trusted: predicates in c15.rs; 'outside' = the side (b-a)x(c-a) points to (the crate's culling convention); merge tolerance min(1e-4*scale, 0.2*shortest ideal edge).",
+         "DESIGN.md §4 C15"),
+ "C16": ("exhaustive sweeps of all 2^24 8-bit RGB and all 2^24 8-bit HSL colours, float lattices incl. every sextant boundary +- ulps, proptest float colours, all single-byte and strided (thorough: all 2^32) packed words; independent f64 textbook HSL<->RGB reference",
+         "Generated-input search: 52.7M (4.4G) cases per run; round trips, range, gray, hue-1==hue-0, no panic (debug assertions live), packing byte orders, clamp-then-truncate, saturating add.",
+         "Trusted: f64 reference conversions in c16.rs (written in a different algebraic form from the library's).",
+         "DESIGN.md §4 C16"),
  "C18": ("proptest + lattices of angles/intervals/vectors vs f64 reference: unit conversions, wrap range and congruence, operators bit-equal to f32 on radians, polar/spherical round trips, sin_cos",
          "Generated-input search over 2.5M (96M) cases with >= 10x measured margins; wrap results must lie in [lo, hi] and be congruent modulo the interval length (tolerance scales with (|a|+|lo|+|hi|)/width).",
          "Trusted: f64 reference in c18.rs; poles / r = 0 / unresolvable congruence excluded and counted.",
          "DESIGN.md §4 C18"),
+ "C19": ("exact GF(2) order certificate of the step matrix read off next_bits (T^(2^64-1)=I, T^((2^64-1)/p)!=I for all 7 prime factors) + linearity on generated pairs + independent inverse step; ALL 2^23 mantissas x 96 (2048) float ranges enumerated via states constructed with the inverse step; proptest for i32 ranges, shapes, composite distributions",
+         "Generated-input search and exhaustive enumeration: 9.4e8 (1.8e10) evaluations; period claim decided algebraically on observations of the real step function; distributions in range for every mantissa of every listed range.",
+         "Trusted: bit-matrix arithmetic and inverse step in c19.rs; linearity is sampled (a failure switches to a counterexample search, never alarms by itself).",
+         "DESIGN.md §4 C19"),
 }
 
 NOT_YET = {}
